@@ -1,7 +1,6 @@
 package checks
 
 import (
-	"context"
 	"fmt"
 	"math"
 	"math/rand"
@@ -517,21 +516,15 @@ func c16Corpus(c *vk.Ctx, i int) {
 				}
 				req = tn
 			}
-			it, err := rd.Search(context.Background(), req)
+			_, aggBucket, err := bx.SafeCollect(rd, req, false)
 			c.Eval(1)
 			if err != nil {
 				c.Violate("search-error", err.Error(), wit)
 				continue
 			}
-			hits, err := bx.Collect(it, false)
-			if err != nil {
-				c.Violate("search-error", err.Error(), wit)
-				continue
-			}
-			_ = hits
 			env := &c16Env{c: c, multi: multiFields, wit: wit, variant: v.name}
 			before := c.ViolationCount()
-			env.checkAggs("", aggs, it.Aggregations().Aggregations(), matched)
+			env.checkAggs("", aggs, aggBucket.Aggregations(), matched)
 			if c.ViolationCount() == before && len(matched) > 0 {
 				kinds := ""
 				var names []string
